@@ -16,6 +16,14 @@ HINTS = {
        "line ends, TAB, leading / trailing blanks, upper / lower case, an empty field. As before the visible effect must be a violation of "
        "the property above, the test suite must still pass, and the change must need something specific to manifest. Make your two changes "
        "of two DIFFERENT kinds from this list."),
+ '9': ("Choose changes of two DIFFERENT kinds from this list: (a) the result depends on the ORDER of two operations or of two inputs "
+       "that should commute (A then B against B then A; the same two records, channels, rows, files or options given the other way "
+       "round); (b) an optional parameter: the path taken when it is omitted / None / at its default disagrees with the path taken when "
+       "the same value is passed explicitly; (c) what the library leaves behind: the position of a file object it was given, a file it "
+       "opened, an attribute of an argument it was handed, an output directory or a partly written file after an error; (d) the library's own "
+       "message building (logging, str / repr / format of an object with unusual content) raising or changing behaviour only for unusual "
+       "content. As before the visible effect must be a violation of the property above, the test suite must still pass, and the change "
+       "must need something specific to manifest."),
  '8': ("Choose changes of these kinds, one each: (a) an arithmetic slip on a length, offset, count or index that is only wrong when two "
        "particular quantities are equal, or one is exactly one more than the other, or a remainder is zero; (b) a condition on TWO flags or "
        "options where only one of the four combinations goes wrong (and / or, a missing not, precedence, an elif that shadows a case). Look "
